@@ -233,3 +233,27 @@ Example C11_example_manifest_stale_content :
   view_at (fst (run0 cfg_fixed os_manifest_stale)) [b "r"; b "w"; b "copy"] = VNone /\
   view_at (fst (run0 cfg_fixed os_manifest_stale)) [b "r"; b "w"; b "later"] = VNone.
 Proof. exact manifest_stale. Qed.
+
+(* the process's current directory has no influence on what the repaired store does (in the
+   unrepaired code relative hard-link targets were taken from it: C11_prefix_refuted_hardlink_cwd) *)
+Theorem C11_cwd_irrelevant :
+  forall (pres : bool) (wd cwd1 cwd2 : path) (os : list pushop) (s : store),
+    pushes cfg_fixed pres wd cwd1 s os = pushes cfg_fixed pres wd cwd2 s os.
+Proof. exact pushes_cwd. Qed.
+Print Assumptions C11_cwd_irrelevant.
+
+(* an Lstat (kernel walk, last element not followed) of a path whose proper parents are not links
+   sees exactly what the tree holds at that lexical location - the justification for modelling the
+   store's Lstat checks as look-ups *)
+Theorem C11_lstat_is_lookup :
+  forall (f : fsys) (p : path) (fuel nl : nat),
+    lexreal f [] p = true ->
+    match walk fuel f nl [] (Nms p) false with
+    | WFile q i => q = p /\ lookup f p = Some (NFile i)
+    | WSym q d a cs => q = p /\ lookup f p = Some (NSym d a cs)
+    | WNoEnt q => q = p /\ lookup f p = None
+    | WDir q => q = p
+    | _ => True
+    end.
+Proof. exact lstat_is_lookup. Qed.
+Print Assumptions C11_lstat_is_lookup.
